@@ -450,7 +450,22 @@ def n11_try(toks, which, counts):
         t = out[i]
         if is_p(t, "?") and i > 0 and (out[i - 1].kind in ("id",) or is_p(out[i - 1], ")") or is_p(out[i - 1], "]")):
             seq += 1
-            if seq in which or "all" in which:
+            # `@name`: the `?` directly applied to a call of that function / method (robust against other `?` being
+            # added or removed, unlike ordinals)
+            callee = None
+            if is_p(out[i - 1], ")"):
+                d, k = 0, i - 1
+                while k >= 0:
+                    if is_p(out[k], ")"):
+                        d += 1
+                    elif is_p(out[k], "("):
+                        d -= 1
+                        if d == 0:
+                            break
+                    k -= 1
+                if k > 0 and out[k - 1].kind == "id":
+                    callee = out[k - 1].text
+            if seq in which or "all" in which or (callee is not None and ("@" + callee) in which):
                 st = _postfix_start(out, i)
                 operand = out[st:i]
                 lead = operand[0].trivia
@@ -564,7 +579,7 @@ def apply_all(toks, repo, opts, notes):
     if opts.get("n11"):
         which = set()
         for x in str(opts["n11"]).split(","):
-            which.add("all" if x == "all" else int(x))
+            which.add(x if (x == "all" or x.startswith("@")) else int(x))
         toks = n11_try(toks, which, counts)
     for (frm, to, mode) in opts.get("rewrites", []):
         toks = rewrite(toks, frm, to, counts, mode)
